@@ -225,6 +225,33 @@ func checkC11(c *Ctx) {
 		}
 	}
 	flush()
+	// mixed groups: a plural message before, between and after simple ones (catalogue entries are
+	// processed in order, so per-entry state must not leak from a plural entry into the next).
+	var simples, plurals []c11msg
+	for _, m := range msgs {
+		if len(m.parts) == 1 && m.parts[0].Kind == "plural" {
+			plurals = append(plurals, m)
+		} else if m.surround == "plain" && m.meaning == "" {
+			simples = append(simples, m)
+		}
+	}
+	for pi, p := range plurals {
+		for k := 0; k < 3; k++ {
+			if !c.Mine() {
+				continue
+			}
+			a, b := simples[(pi*7+k*13)%len(simples)], simples[(pi*11+k*17+5)%len(simples)]
+			switch k {
+			case 0:
+				group = []c11msg{p, a, b}
+			case 1:
+				group = []c11msg{a, p, b}
+			default:
+				group = []c11msg{a, b, p}
+			}
+			flush()
+		}
+	}
 }
 
 func c11File(i int, m c11msg) string {
